@@ -93,10 +93,11 @@ type State struct {
 	frames  []*Frame
 	cellVal map[*Cell]Value
 	heap    map[string]*Term // heap map name -> current array term
-	heapT   map[string]types.Type
+	heapSort map[string]string // heap array key -> element sort (shared, append-only)
 	epoch   int
 	pc      []*Term
 	nalloc  int
+	allocBase *Term // current allocation watermark base (alloc0 at entry; a fresh symbol after each loop cut)
 	path    []string // human-readable trail of decisions
 	mu      *Term    // unused
 	ghostI  map[*ssa.BasicBlock]*Term
@@ -105,7 +106,7 @@ type State struct {
 }
 
 func (s *State) clone() *State {
-	n := &State{epoch: s.epoch, nalloc: s.nalloc}
+	n := &State{epoch: s.epoch, nalloc: s.nalloc, allocBase: s.allocBase}
 	n.frames = make([]*Frame, len(s.frames))
 	for i, f := range s.frames {
 		nf := *f
@@ -140,7 +141,7 @@ func (s *State) clone() *State {
 	for k, v := range s.heap {
 		n.heap[k] = v
 	}
-	n.heapT = s.heapT // shared, append-only
+	n.heapSort = s.heapSort // shared, append-only
 	n.pc = append([]*Term{}, s.pc...)
 	n.path = append([]string{}, s.path...)
 	n.ghostI = map[*ssa.BasicBlock]*Term{}
@@ -152,13 +153,32 @@ func (s *State) clone() *State {
 
 // snapshot keeps only what old(...) needs: the heap.
 func (s *State) snapshot() *State {
-	n := &State{epoch: s.epoch, heapT: s.heapT}
+	n := &State{epoch: s.epoch, heapSort: s.heapSort}
 	n.heap = make(map[string]*Term, len(s.heap))
 	for k, v := range s.heap {
 		n.heap[k] = v
 	}
 	n.cellVal = s.cellVal
 	return n
+}
+
+func (s *State) base() *Term {
+	if s.allocBase == nil {
+		return Var("alloc0", SInt)
+	}
+	return s.allocBase
+}
+
+// watermark: every object that exists now has a reference <= watermark.
+func (s *State) watermark() *Term { return Add(s.base(), IntT(int64(s.nalloc))) }
+
+// rebaseAlloc is called when a loop is cut: an unknown number of iterations may have allocated objects, so
+// later allocations are numbered from a fresh symbolic base above the current watermark.
+func (x *Exec) rebaseAlloc(s *State) {
+	nb := x.w.Reg.Fresh("allocL", SInt)
+	s.assume(Ge(nb, s.watermark()))
+	s.allocBase = nb
+	s.nalloc = 0
 }
 
 func (s *State) top() *Frame { return s.frames[len(s.frames)-1] }
@@ -197,36 +217,65 @@ func (w *World) heapElemSort(t types.Type) string {
 	return w.SortOf(t)
 }
 
-func (x *Exec) heapMap(s *State, t types.Type) (string, *Term) {
-	k := x.w.heapKey(t)
+// Heap layout (Burstall-Bornat): one SMT array per (struct type, top-level field) "H:T.f" and one array per
+// non-struct pointee type "H:T" (cells, map contents). Writing or forgetting one field never touches the others,
+// so frames are syntactic.
+func (x *Exec) heapArr(s *State, key string, elemSort string) *Term {
+	if h, ok := s.heap[key]; ok {
+		return h
+	}
+	if s.heapSort != nil {
+		s.heapSort[key] = elemSort
+	}
+	h := Var(fmt.Sprintf("%s@e%d", key, s.epoch), ArraySort(SInt, elemSort))
+	s.heap[key] = h
+	return h
+}
+
+func (x *Exec) isStructPointee(t types.Type) bool {
+	_, ok := types.Unalias(t).Underlying().(*types.Struct)
+	return ok
+}
+
+func (x *Exec) fieldKey(t types.Type, i int) string {
+	return fmt.Sprintf("%s.%d", x.w.heapKey(t), i)
+}
+
+func (x *Exec) cellKey(t types.Type) string {
 	if m, ok := types.Unalias(t).Underlying().(*types.Map); ok {
-		k = "HM:" + mangleSort(x.w.mapValSort(m))
+		return "HM:" + mangleSort(x.w.mapValSort(m))
 	}
-	if h, ok := s.heap[k]; ok {
-		return k, h
-	}
-	if s.heapT != nil {
-		s.heapT[k] = t
-	}
-	h := Var(fmt.Sprintf("%s@e%d", k, s.epoch), ArraySort(SInt, x.w.heapElemSort(t)))
-	s.heap[k] = h
-	return k, h
+	return x.w.heapKey(t)
 }
 
 func (x *Exec) heapRead(s *State, ref *Term, t types.Type) *Term {
-	_, h := x.heapMap(s, t)
-	return Select(h, ref)
+	if x.isStructPointee(t) {
+		fs := x.w.StructFields(t)
+		args := make([]*Term, len(fs))
+		for i, f := range fs {
+			args[i] = Select(x.heapArr(s, x.fieldKey(t, i), x.w.SortOf(f.Type)), ref)
+		}
+		return x.w.MkStruct(t, args)
+	}
+	return Select(x.heapArr(s, x.cellKey(t), x.w.heapElemSort(t)), ref)
 }
 
 func (x *Exec) heapWrite(s *State, ref *Term, t types.Type, v *Term) {
-	k, h := x.heapMap(s, t)
-	nh := Store(h, ref, v)
-	if len(nh.Key()) > 4000 {
-		nm := x.w.Reg.Fresh(k+"@", nh.Sort)
-		s.assume(Eq(nm, nh))
-		nh = nm
+	if x.isStructPointee(t) {
+		for i, f := range x.w.StructFields(t) {
+			key := x.fieldKey(t, i)
+			cur := x.heapArr(s, key, x.w.SortOf(f.Type))
+			nv := x.w.Reg.Apply(f.Sel, v)
+			if nv == Select(cur, ref) {
+				continue // unchanged field
+			}
+			s.heap[key] = Store(cur, ref, nv)
+		}
+		return
 	}
-	s.heap[k] = nh
+	key := x.cellKey(t)
+	cur := x.heapArr(s, key, x.w.heapElemSort(t))
+	s.heap[key] = Store(cur, ref, v)
 }
 
 // havocAllHeap forgets every heap map (an unknown callee may have written anything reachable).
@@ -246,7 +295,7 @@ func (x *Exec) nextEpoch() int {
 // this path and from every object that existed at function entry (alloc0 is the entry watermark).
 func (x *Exec) allocRef(s *State) *Term {
 	s.nalloc++
-	return Add(Var("alloc0", SInt), IntT(int64(s.nalloc)))
+	return Add(s.base(), IntT(int64(s.nalloc)))
 }
 
 // ---------------------------------------------------------------------------
@@ -428,4 +477,129 @@ func (e subsetErr) Error() string { return e.msg }
 
 func (x *Exec) subsetf(format string, a ...interface{}) subsetErr {
 	return subsetErr{fmt.Sprintf(format, a...)}
+}
+
+// substState applies a substitution of havoc variables to everything the state holds.
+func (x *Exec) substState(s *State, m map[string]*Term) {
+	for k, h := range s.heap {
+		s.heap[k] = Subst(h, m)
+	}
+	for c, v := range s.cellVal {
+		if v.Term != nil {
+			nv := v
+			nv.Term = Subst(v.Term, m)
+			s.cellVal[c] = nv
+		}
+	}
+	for i, p := range s.pc {
+		s.pc[i] = Subst(p, m)
+	}
+}
+
+// learn assumes c and propagates what follows syntactically: implications in the path condition whose
+// antecedent is c are discharged, and equations `v == T` for call-result / havoc variables v are
+// applied as substitutions (keeps references to conditionally fresh objects concrete).
+func (x *Exec) learn(s *State, c *Term) {
+	s.assume(c)
+	if s.dead {
+		return
+	}
+	derivedOf := func() []*Term {
+		var out []*Term
+		// the assumed condition may itself have been rewritten by earlier substitutions: match on the last pc entry
+		cur := s.pc[len(s.pc)-1]
+		out = append(out, conjuncts(cur)...)
+		key := cur.Key()
+		for _, p := range s.pc {
+			if p.K == KApp && p.Name == "=>" && p.Args[0].Key() == key {
+				out = append(out, conjuncts(p.Args[1])...)
+			}
+		}
+		return out
+	}
+	for round := 0; round < 8; round++ {
+		changed := false
+		for _, d := range derivedOf() {
+			if !(d.K == KApp && d.Name == "=" && len(d.Args) == 2) {
+				continue
+			}
+			for _, ord := range [][2]int{{0, 1}, {1, 0}} {
+				v, e := d.Args[ord[0]], d.Args[ord[1]]
+				if v.K == KVar && (strings.HasPrefix(v.Name, "ret.") || strings.HasPrefix(v.Name, "havoc")) && !contains(e, v.Name) && isGroundRef(e) {
+					m := map[string]*Term{v.Name: e}
+					last := s.pc[len(s.pc)-1]
+					x.substState(s, m)
+					s.pc[len(s.pc)-1] = last // keep the branch condition itself as assumed
+					top := s.top()
+					for k, val := range top.vals {
+						if val.Term != nil && contains(val.Term, v.Name) {
+							val.Term = Subst(val.Term, m)
+							top.vals[k] = val
+						}
+					}
+					s.assume(d)
+					// re-establish the branch condition as the last entry for the next round
+					s.pc = append(s.pc, last)
+					changed = true
+					break
+				}
+			}
+			if changed {
+				break
+			}
+		}
+		if !changed {
+			break
+		}
+	}
+	for _, d := range derivedOf() {
+		x.materialize(s, d)
+	}
+}
+
+// isGroundRef: alloc0 + k or a literal (the only right-hand sides worth propagating eagerly)
+func isGroundRef(t *Term) bool {
+	if t.IsLit() {
+		return true
+	}
+	return t.K == KApp && t.Name == "+" && len(t.Args) == 2 && t.Args[0].K == KVar &&
+		(t.Args[0].Name == "alloc0" || strings.HasPrefix(t.Args[0].Name, "allocL!")) && t.Args[1].IsLit()
+}
+
+// materialize: an assumed fact `A[i] == v` about a base heap array A (a variable) with a concrete reference i
+// is written into the heap terms as store(A, i, v), so that later reads fold syntactically.
+func (x *Exec) materialize(s *State, t *Term) {
+	for _, c := range conjuncts(t) {
+		if !(c.K == KApp && c.Name == "=" && len(c.Args) == 2) {
+			// boolean-sorted array reads appear as the atom itself / its negation
+			if c.K == KApp && c.Name == "select" && c.Sort == SBool {
+				x.materializeEq(s, c, TTrue)
+			} else if c.K == KApp && c.Name == "not" && c.Args[0].K == KApp && c.Args[0].Name == "select" {
+				x.materializeEq(s, c.Args[0], TFalse)
+			}
+			continue
+		}
+		a, b := c.Args[0], c.Args[1]
+		if a.K == KApp && a.Name == "select" {
+			x.materializeEq(s, a, b)
+		} else if b.K == KApp && b.Name == "select" {
+			x.materializeEq(s, b, a)
+		}
+	}
+}
+
+func (x *Exec) materializeEq(s *State, sel *Term, v *Term) {
+	arr, idx := sel.Args[0], sel.Args[1]
+	if arr.K != KVar || !isGroundRef(idx) || contains(v, arr.Name) {
+		return
+	}
+	if !(v.IsLit() || v.K == KBool || isGroundRef(v) || v.K == KVar || v.K == KApp && len(v.Args) == 0) {
+		return
+	}
+	m := map[string]*Term{arr.Name: Store(arr, idx, v)}
+	for k, h := range s.heap {
+		if contains(h, arr.Name) {
+			s.heap[k] = Subst(h, m)
+		}
+	}
 }
